@@ -592,6 +592,24 @@ func (m *Model) Judge(i int) *Verdict {
 		v.Errs = append(v.Errs, MErr{Class: "inj-sig", Note: bad})
 		return v
 	}
+	// an injector parameter spelled like a function or set of the injector's
+	// package that the build list names (unqualified) shadows it there: the
+	// list then names the parameter, which is no provider
+	for _, a := range in.Args {
+		name := ""
+		switch {
+		case a.Item >= 0 && m.S.Items[a.Item].Kind == "func" && m.S.Items[a.Item].Pkg == 0:
+			name = m.S.Items[a.Item].Name
+		case a.Set >= 0 && m.S.Sets[a.Set].Pkg == 0:
+			name = m.S.Sets[a.Set].Name
+		}
+		for _, p := range in.Params {
+			if name != "" && p.Name == name {
+				v.Errs = append(v.Errs, MErr{Class: "notprovider", Note: name})
+				return v
+			}
+		}
+	}
 	ptypes := in.Params
 	set := m.EvalSet(in.Args, ptypes)
 	v.Set = set
